@@ -176,9 +176,9 @@ PROPS = {
                    "integer sources inside the range are now proved correctly rounded (C03_cfloat_from_int_partial, side condition "
                    "C03_cfloat_from_int_inRange); still KNOWN-FINDING classes: no range check in the integer routines (the repair was "
                    "withdrawn: static/cfloat/math/fractional.cpp depends on the old conversion), integer 1 into es = 1 configurations, "
-                   "subnormal IEEE sources, saturating+supernormal maxpos; long double sources only: ties in the target's subnormal range round "
-                   "up (hmask has bit 0 set), the shift by 64 for values in [minpos/2, minpos) (also a C20 UBSan finding), targets with "
-                   "fbits >= 63 have no subnormal handling",
+                   "subnormal IEEE sources, saturating+supernormal maxpos; long double sources only: targets with fbits >= 63 have no "
+                   "subnormal handling; repaired in /repo and checked per line since: ties in the target's subnormal range rounded up "
+                   "(ieee754_parameter<long double>::hmask had bit 0 set), the shift by 64 for values in [minpos/2, minpos) (also a C20 UBSan finding)",
         explanation="cfloat from double/float/long double/integers: sources generated from the target (each value, midpoints, 1 source ulp around -- "
                     "for long double 2^-63 relative, plus 2 and 1024 ulps off every tie (and 3072 at the overflow cusp), so that a detour through "
                     "binary64 or a dropped low significand bit changes a result), specials (17 NaN payloads x 2 signs, infinities, the limits of "
@@ -197,9 +197,9 @@ PROPS = {
                    "read-back is judged against the exact value of the encoding, the round trip against the original encoding",
         level_note="trusted: as C02; to_int() went through float (repaired in /repo: it reads back through double like to_long_long, no class "
                    "left); the bfloat/float-subnormal round trip is a KNOWN-FINDING class; long double: values outside [2^-1074, 2^1024) and the "
-                   "subnormals of es >= 12 read back as 0 / inf (ipow and subnormal_exponent are double), a signalling NaN comes back quiet "
-                   "(ieee754_parameter<long double> carries the binary64 NaN masks), subnormal values of targets with fbits >= 63 do not "
-                   "convert back -- KNOWN-FINDING classes",
+                   "subnormals of es >= 12 read back as 0 / inf (ipow and subnormal_exponent are double), subnormal values of targets with "
+                   "fbits >= 63 do not convert back -- KNOWN-FINDING classes; repaired in /repo: a signalling NaN came back quiet through "
+                   "long double (ieee754_parameter<long double> carried the binary64 NaN masks)",
         explanation="cfloat to double/float/long double/int/long long and round trip: every encoding of the small configurations, structured "
                     "encodings of the large ones; long double read-back (told, as sign|15|63 pattern) and round trip (rtld) also for "
                     "cfloat<80,15> x3, <64,15>, <48,12>, <80,11> (exponent fields at the +-63/64, +-1022..1025, -1074/-1075 boundaries of to_native)",
